@@ -14,6 +14,9 @@ package main
 //   c20.tolower <s>                           strings.ToLower(s)                                 (vs Links.toLower)
 //   c20.hosts                                 deeplinks.ReservedHosts()                          (vs the regenerated Gen/Links.lean)
 //   c20.lowertab                              every rune whose unicode.ToLower differs           (vs the regenerated Gen/Links.lean)
+//   c20.alias <how> <k> <names> <links>       a caller treats the slice ReservedHosts() returned as its own and writes
+//                                             through it (how = read | append | assign | prefix); Resolve of every link
+//                                             before and after, and ReservedHosts() after           (vs resolveString twice)
 
 import (
 	"encoding/hex"
@@ -147,6 +150,8 @@ func c20Exec(op []string) string {
 			hs = append(hs, hexS(h))
 		}
 		return "hosts=" + showList(hs)
+	case op[0] == "c20.alias" && len(op) == 5:
+		return c20Alias(op[1], atoi(op[2]), c20UnhexList(op[3]), c20UnhexList(op[4]))
 	case op[0] == "c20.lowertab" && len(op) == 1:
 		var ps []string
 		for r := rune(0); r <= unicode.MaxRune; r++ {
@@ -157,6 +162,70 @@ func c20Exec(op []string) string {
 		return "pairs=" + showList(ps)
 	}
 	return "bad-op"
+}
+
+func c20UnhexList(tok string) []string {
+	var out []string
+	for _, b := range parseBytesList(tok) {
+		out = append(out, string(b))
+	}
+	return out
+}
+
+func c20HexList(xs []string) string {
+	var hs []string
+	for _, x := range xs {
+		hs = append(hs, hexS(x))
+	}
+	return showList(hs)
+}
+
+// c20Alias: what a caller of the public ReservedHosts() may do with "its" list, and what Resolve says
+// about the links before and after. A []string handed to a caller is the caller's: building an own
+// allow-list from a prefix of it (append to a re-slice: in place when there is spare capacity), or
+// rewriting its elements (look-alike hosts, normalisation), must not change what Resolve does later.
+//   read          the list is only read
+//   append k ns   own := append(list[:k], ns...)
+//   assign k ns   list[(k+i) % len] = ns[i]
+//   prefix k ns   list[i] = ns[0] + list[i] for every i >= k
+func c20Alias(how string, k int, names, links []string) string {
+	resolveAll := func() []string {
+		var rs []string
+		for _, l := range links {
+			rs = append(rs, c20Canon(deeplinks.Resolve(l)))
+		}
+		return rs
+	}
+	before := resolveAll()
+	list := deeplinks.ReservedHosts()
+	if k > len(list) {
+		k = len(list)
+	}
+	switch how {
+	case "read":
+		n := 0
+		for _, h := range list {
+			n += len(h)
+		}
+		_ = n
+	case "append":
+		own := append(list[:k], names...)
+		_ = own
+	case "assign":
+		for i, n := range names {
+			if len(list) > 0 {
+				list[(k+i)%len(list)] = n
+			}
+		}
+	case "prefix":
+		for i := k; i < len(list) && len(names) > 0; i++ {
+			list[i] = names[0] + list[i]
+		}
+	default:
+		return "bad-op"
+	}
+	after := resolveAll()
+	return "before=" + showList(before) + " after=" + showList(after) + " hosts=" + c20HexList(deeplinks.ReservedHosts())
 }
 
 // ---- the property oracle (written from the property text; shares nothing with the resolver) --------
@@ -403,27 +472,73 @@ func c20Judge(op []string, out string) string {
 		}
 		return c20JudgeResult(unhexS(op[1]), out[i+3:])
 	case "c20.hosts":
-		got := map[string]bool{}
-		for _, h := range strings.Split(strings.TrimPrefix(out, "hosts="), ",") {
-			if h != "-" {
-				got[unhexS(h)] = true
+		return c20JudgeHosts(strings.TrimPrefix(out, "hosts="))
+	case "c20.alias":
+		if len(op) != 5 || out == "bad-op" {
+			return ""
+		}
+		f := kvC20(out)
+		links := c20UnhexList(op[4])
+		before, after := strings.Split(f["before"], ","), strings.Split(f["after"], ",")
+		if len(before) != len(links) || len(after) != len(links) {
+			return "malformed result " + clip(out)
+		}
+		what := fmt.Sprintf("a caller's %s through the slice ReservedHosts() returned (k=%s, names %q)", op[1], op[2], c20UnhexList(op[3]))
+		var bad []string
+		for i, l := range links {
+			if why := c20JudgeResult(l, before[i]); why != "" {
+				bad = append(bad, "before "+what+": "+why)
+			}
+			if after[i] != before[i] {
+				bad = append(bad, fmt.Sprintf("Resolve(%q) was %s and is %s after %s: the outcome depends on what a caller did with its list, not on the link", l, before[i], after[i], what))
+			}
+			if why := c20JudgeResult(l, after[i]); why != "" {
+				bad = append(bad, "after "+what+": "+why)
+			}
+			if len(bad) >= 4 {
+				break
 			}
 		}
-		var diff []string
-		for h := range c20Owned {
-			if !got[h] {
-				diff = append(diff, "missing "+h)
-			}
+		if why := c20JudgeHosts(f["hosts"]); why != "" {
+			bad = append(bad, "after "+what+": "+why)
 		}
-		for h := range got {
-			if !c20Owned[h] {
-				diff = append(diff, "foreign "+h)
-			}
+		return strings.Join(bad, "; ")
+	}
+	return ""
+}
+
+func kvC20(out string) map[string]string {
+	m := map[string]string{}
+	for _, f := range strings.Fields(out) {
+		if i := strings.IndexByte(f, '='); i > 0 {
+			m[f[:i]] = f[i+1:]
 		}
-		sort.Strings(diff)
-		if len(diff) > 0 {
-			return "ReservedHosts() is not the set of Telegram-owned hosts: " + strings.Join(diff, ", ")
+	}
+	return m
+}
+
+// c20JudgeHosts: the list (comma separated hex) is exactly the five Telegram-owned hosts.
+func c20JudgeHosts(list string) string {
+	got := map[string]bool{}
+	for _, h := range strings.Split(list, ",") {
+		if h != "-" {
+			got[unhexS(h)] = true
 		}
+	}
+	var diff []string
+	for h := range c20Owned {
+		if !got[h] {
+			diff = append(diff, "missing "+h)
+		}
+	}
+	for h := range got {
+		if !c20Owned[h] {
+			diff = append(diff, "foreign "+h)
+		}
+	}
+	sort.Strings(diff)
+	if len(diff) > 0 {
+		return "ReservedHosts() is not the set of Telegram-owned hosts: " + strings.Join(diff, ", ")
 	}
 	return ""
 }
@@ -645,5 +760,74 @@ func c20Gen(g *G) {
 				g.Emit("c20.resolve "+hexS("t.me/x"+string(rn)), "tolower-all-runes")
 			}
 		}
+	}
+	// (e) LAST (whatever these leave behind in a defective tree cannot reach the operations above, and the
+	// regeneration of Gen/Links.lean is a run of its own, before this one): callers that write through the slice
+	// ReservedHosts() handed them. The list is the caller's; what Resolve answers must not depend on it.
+	reserved := append([]string{}, c20ReservedForGen...)
+	for _, h := range deeplinks.ReservedHosts() { // a copy, element by element: nothing here keeps the returned slice
+		seen := false
+		for _, k := range reserved {
+			seen = seen || k == h
+		}
+		if !seen {
+			reserved = append(reserved, h)
+		}
+	}
+	word := func() string {
+		b := make([]byte, 3+r.Intn(6))
+		for i := range b {
+			b[i] = "abcdefghijklmnopqrstuvwxyz"[r.Intn(26)]
+		}
+		return string(b) + pick([]string{".org", ".com", ".me", ".example", ".pe"})
+	}
+	probes := func(written []string) string {
+		var ls []string
+		for _, h := range append(append([]string{}, reserved...), written...) {
+			ls = append(ls, h+"/DuRov", "https://"+h+"/"+pick([]string{"BotFather", "durov", "ÉCOLE"}), "http://"+h+":443/joinchat/AbCdEf-"+pick([]string{"x", "Y", "0"}))
+		}
+		return c20HexList(ls)
+	}
+	emitAlias := func(how string, k int, names []string, written []string) {
+		g.Emit(fmt.Sprintf("c20.alias %s %d %s %s", how, k, c20HexList(names), probes(written)), "alias", "alias-"+how)
+	}
+	n := len(reserved)
+	emitAlias("read", 0, []string{word()}, nil)
+	for round := g.N(1, 8); round > 0; round-- {
+		// an own list from the first k hosts plus further names: every k that leaves spare capacity, 1..3 names
+		for k := 0; k <= n; k++ {
+			names := []string{word()}
+			for j := r.Intn(3); j > 0; j-- {
+				names = append(names, pick([]string{word(), "www." + pick(reserved), pick(c20LookAlikes[:4])}))
+			}
+			emitAlias("append", k, names, names)
+		}
+		// elements assigned in place: each position, and a run of them
+		for k := 0; k < n; k++ {
+			names := []string{pick([]string{word(), "www." + reserved[k], strings.ToUpper(reserved[k])})}
+			emitAlias("assign", k, names, names)
+		}
+		{
+			var names []string
+			for j := 2 + r.Intn(n); j > 0; j-- {
+				names = append(names, word())
+			}
+			emitAlias("assign", r.Intn(n), names, names)
+		}
+		// look-alike / normalised hosts derived in place
+		pre := pick([]string{"www.", "m.", "web.", "x"})
+		var derived []string
+		for _, h := range reserved {
+			derived = append(derived, pre+h)
+		}
+		emitAlias("prefix", r.Intn(2), []string{pre}, derived)
+		emitAlias("read", 0, []string{word()}, nil)
+	}
+	// and the plain questions again (the same operation lines as at the start of the run: a changed answer is
+	// history dependence)
+	g.Emit("c20.hosts", "facts")
+	for _, h := range reserved {
+		c20EmitLink(g, h+"/durov", false, "after-alias")
+		c20EmitLink(g, "https://"+h+"/joinchat/AAAAAEkk2WdoDrB4-Q_tok", false, "after-alias")
 	}
 }
